@@ -28,6 +28,8 @@ func init() {
 	// bson
 	c("bson-endian", "C16.bson.frame", bs, `d.Endian = decode.LittleEndian`, `d.Endian = decode.BigEndian`, "endian")
 	c("bson-frame", "C16.bson.frame", bs, `(size-4)*8`, `(size)*8`, "document:frame")
+	c("bson-string-nul-cut", "C16.bson.row", bs, "length := d.FieldU32(\"length\")\n\t\t\t\t\t\td.FieldUTF8(\"value\", int(length), strTrimTerminator)", "length := d.FieldU32(\"length\")\n\t\t\t\t\t\td.FieldUTF8NullFixedLen(\"value\", int(length))", "type:0x02")
+	c("bson-js-no-mapper", "C16.bson.row", bs, "length := d.FieldS32(\"length\")\n\t\t\t\t\t\td.FieldUTF8(\"value\", int(length), strTrimTerminator)", "length := d.FieldS32(\"length\")\n\t\t\t\t\t\td.FieldUTF8(\"value\", int(length))", "type:0x0d")
 	c("bson-int32", "C16.bson.row", bs, "case elementTypeInt32:\n\t\t\t\t\t\td.FieldS32(\"value\")", "case elementTypeInt32:\n\t\t\t\t\t\td.FieldU32(\"value\")", "type:0x10")
 
 	// bencode
